@@ -105,7 +105,10 @@ type worker struct {
 
 const setCap = 4 << 20
 
+var traceOn = os.Getenv("VERIF_TRACE") != ""
+
 func (w *worker) run(prefix []int) (x *X) {
+	t0 := time.Now()
 	x = &X{Tier: w.tier, prefix: prefix, w: w}
 	cur := append([]int(nil), prefix...)
 	w.current.Store(&cur)
@@ -127,6 +130,9 @@ func (w *worker) run(prefix []int) (x *X) {
 		w.p.Run(x)
 	}()
 	w.progress.Add(1)
+	if traceOn {
+		fmt.Fprintf(os.Stderr, "TRACE %8.3fs %v %s\n", time.Since(t0).Seconds(), x.choices, x.description())
+	}
 	if len(x.choices) < len(prefix) {
 		panic(fmt.Sprintf("HARNESS-ERROR replay divergence: execution made %d choices, prefix has %d", len(x.choices), len(prefix)))
 	}
